@@ -133,7 +133,12 @@ def config(tier, seed):
                       dict(Pools="{2}", MaxAct=2, LateBegin=False, pairs=[(1, 7), (2, 7), (5, 7), (6, 7)]),
                       dict(Pools="{1,2}", MaxAct=2, LateBegin=False, pairs=[(3, 7)]),
                       dict(Pools="{2}", MaxAct=2, LateBegin=False, pairs=[(4, 7)])],
-                live=dict(Pools="{0,1,2}", MaxAct=2, LateBegin=True, pairs=nosync),
+                # (activities begun after Stop are in the quick tier's liveness config, MaxAct=1;
+                # with two activities that run no longer finishes in its time budget)
+                # the pairs that share something (work manager / cfilter mutex, broadcaster <->
+                # rescan via MarkAsConfirmed, broadcaster / rescan <-> subscription handler)
+                live=dict(Pools="{0,1,2}", MaxAct=2, LateBegin=False,
+                          pairs=[(1, 2), (1, 3), (1, 4), (2, 3), (2, 4), (3, 4), (4, 5), (4, 6), (5, 6)]),
                 moments=[0, 1, 2], per_key=3, bound=BOUND, all_pauses=True)
 
 
@@ -627,7 +632,7 @@ def run(prop_id, tier, seed, replay=None):
             # design-level liveness in the background while the graph is exported
             lc = consts_of(cfg["live"])
             th = threading.Thread(target=lambda: live_res.update(
-                run_liveness(lc, os.path.join(sc, "live"), workers=4)))
+                run_liveness(lc, os.path.join(sc, "live"), workers=4, timeout=2400)))
             th.start()
             # ... and the driver is compiled
             built = {}
